@@ -5,6 +5,7 @@ package main
 import (
 	"fmt"
 	"os"
+	"strings"
 
 	"golang.org/x/tools/go/ssa"
 )
@@ -133,8 +134,14 @@ func (e *Engine) tryMerge(st *State, fr *Frame, x *ssa.If, c *Term, mT, mF Model
 	if ms := e.mergeStat[x]; ms != nil && ms.fail >= 4 && ms.fail > 8*ms.ok {
 		return false // this branch practically never merges: fork directly
 	}
-	if e.cfg.NoMergeIn[fr.Fn.Name()] {
-		return false
+	if len(e.cfg.NoMergeIn) > 0 {
+		name := fr.Fn.Name()
+		if i := strings.IndexByte(name, '['); i >= 0 {
+			name = name[:i]
+		}
+		if e.cfg.NoMergeIn[name] {
+			return false
+		}
 	}
 	ci := e.cfgOf(fr.Info, fr.Fn)
 	bi := fr.Block.Index
